@@ -11,6 +11,7 @@ import (
 	"go/constant"
 	"go/token"
 	"go/types"
+	"golang.org/x/tools/go/ssa"
 	"math/big"
 	"strings"
 
@@ -58,10 +59,14 @@ type Folder struct {
 	busy   map[types.Object]bool
 	curve  *fval
 	curveE error
+	// tables that are not literals but the result of an input-free generator (constant propagation, consteval.go)
+	genCache   map[*ssa.Function][]*litNode
+	generated  map[string]string // pkg.name -> generator
+	tableNotes map[string]string // why a table could not be obtained
 }
 
 func NewFolder(p *Prog) *Folder {
-	return &Folder{p: p, memo: map[types.Object]*fval{}, busy: map[types.Object]bool{}}
+	return &Folder{p: p, memo: map[types.Object]*fval{}, busy: map[types.Object]bool{}, tableNotes: map[string]string{}}
 }
 
 func (f *Folder) pkgOf(obj types.Object) *packages.Package {
@@ -650,10 +655,89 @@ func (f *Folder) VarInit(pkg, name string) (*packages.Package, ast.Expr, error) 
 
 func (f *Folder) TableByName(pkg, name string) (*litNode, error) {
 	pk, e, err := f.VarInit(pkg, name)
-	if err != nil {
-		return nil, err
+	if err == nil {
+		if t, lerr := f.LitTree(pk, e); lerr == nil {
+			return t, nil
+		} else {
+			err = lerr
+		}
 	}
-	return f.LitTree(pk, e)
+	// not a literal: a table produced by an input-free generator has one value, obtained by constant propagation
+	if t, cerr := f.generatedTable(pkg, name); cerr == nil {
+		return t, nil
+	} else if f.tableNotes != nil {
+		f.tableNotes[pkg+"."+name] = cerr.Error()
+	}
+	return nil, err
+}
+
+// generatedTable: var name = gen() or var a, name, c = gen(), gen a repository function without parameters
+func (f *Folder) generatedTable(pkg, name string) (*litNode, error) {
+	pk := f.p.Pkgs[pkg]
+	if pk == nil {
+		return nil, fmt.Errorf("no package %s", pkg)
+	}
+	if f.genCache == nil {
+		f.genCache = map[*ssa.Function][]*litNode{}
+	}
+	for _, file := range pk.Syntax {
+		for _, d := range file.Decls {
+			gd, ok := d.(*ast.GenDecl)
+			if !ok || gd.Tok != token.VAR {
+				continue
+			}
+			for _, sp := range gd.Specs {
+				vs := sp.(*ast.ValueSpec)
+				for i, n := range vs.Names {
+					if n.Name != name {
+						continue
+					}
+					var call *ast.CallExpr
+					idx := 0
+					switch {
+					case len(vs.Values) == len(vs.Names):
+						call, _ = vs.Values[i].(*ast.CallExpr)
+					case len(vs.Values) == 1:
+						call, _ = vs.Values[0].(*ast.CallExpr)
+						idx = i
+					}
+					if call == nil || len(call.Args) != 0 {
+						return nil, fmt.Errorf("%s.%s is not initialised by a call without arguments", pkg, name)
+					}
+					id, ok := call.Fun.(*ast.Ident)
+					if !ok {
+						return nil, fmt.Errorf("%s.%s: generator is not a plain function", pkg, name)
+					}
+					tf, ok := pk.TypesInfo.Uses[id].(*types.Func)
+					if !ok {
+						return nil, fmt.Errorf("%s.%s: generator is not a function", pkg, name)
+					}
+					fn := f.p.SSA.FuncValue(tf)
+					if fn == nil {
+						return nil, fmt.Errorf("%s.%s: generator has no body", pkg, name)
+					}
+					trees, ok := f.genCache[fn]
+					if !ok {
+						var err error
+						trees, err = constEvalCall(f.p, f, fn)
+						if err != nil {
+							return nil, err
+						}
+						f.genCache[fn] = trees
+					}
+					if idx >= len(trees) {
+						return nil, fmt.Errorf("%s.%s: generator has %d results", pkg, name, len(trees))
+					}
+					if f.generated == nil {
+						f.generated = map[string]string{}
+					}
+					f.generated[pkg+"."+name] = fn.Name()
+					return trees[idx], nil
+				}
+			}
+		}
+	}
+	return nil, fmt.Errorf("no initialiser for %s.%s", pkg, name)
 }
 
 func (f *Folder) ConstInt(pkg, name string) (*big.Int, error) {
